@@ -75,8 +75,117 @@ pub fn run(a: &HashMap<String, String>) -> Value {
     let verify_ok: Option<bool> = std::panic::catch_unwind(std::panic::AssertUnwindSafe(|| mock.verify().is_ok())).ok();
     std::panic::set_hook(hook);
     let omega = Fq::ROOT_OF_UNITY.pow_vartime([1u64 << (Fq::S - k)]);
-    json!({"scenario": "keygen", "k": k, "n": 1u64 << k, "omega": fq_hex(&omega), "delta": fq_hex(&Fq::DELTA),
+    let mut out = json!({"scenario": "keygen", "k": k, "n": 1u64 << k, "omega": fq_hex(&omega), "delta": fq_hex(&Fq::DELTA),
            "keygen": {"columns": kg_cols, "sigma": sigma, "fixed": kg_fixed, "num_fixed_columns_after_selectors": vk.cs().num_fixed_columns()},
            "mock": {"columns": mk_cols, "mapping": mapping, "fixed": mk_fixed, "selectors": mk_sel,
-                    "usable_rows": mock.usable_rows().end, "verify_ok": verify_ok}})
+                    "usable_rows": mock.usable_rows().end, "verify_ok": verify_ok}});
+    // ---- added for the static-table family: cell states of the checker's fixed columns (A assigned, U unassigned,
+    //      P poisoned), the vk side's own count of usable rows, and the static lookups (below)
+    let state = |v: &CellValue<Fq>| match v {
+        CellValue::Assigned(_) => "A",
+        CellValue::Unassigned => "U",
+        CellValue::Poison(_) => "P",
+    };
+    out["mock"]["fixed_state"] = json!(mock.fixed().iter().map(|col| col.iter().map(state).collect::<String>()).collect::<Vec<_>>());
+    out["keygen"]["usable_rows"] = json!((1usize << k) - (vk.cs().blinding_factors() + 1));
+    if !shape.slookups.is_empty() {
+        out["slookups"] = static_lookups(&shape, k, &vk, &mock);
+        out["arena"] = dump_arena();
+    }
+    out
+}
+
+fn handle_terms(h: u32) -> Vec<SymF> {
+    let w = WORLD.lock().unwrap();
+    let a = ARENA.lock().unwrap();
+    match &w.coms[h as usize] {
+        ComDef::Committed { vec, .. } => vec
+            .iter()
+            .map(|i| match &a.nodes[*i as usize] {
+                Node::Const(c) => SymF::C(*c),
+                _ => SymF::T(*i),
+            })
+            .collect(),
+        _ => vec![],
+    }
+}
+
+/// Per static lookup and usable row: (impl) the lookup's input expressions as they stand in vk.cs() AFTER keygen (selectors
+/// replaced by fixed columns), evaluated over the fixed vectors the vk commits to, advice / instance cells and challenges
+/// symbolic; (spec) the input as DECLARED by the shape (sum of products, selector form), with the selector bit taken from
+/// the checker's `selectors()` at the index `meta.complex_selector()` returned. Term ids into the arena.
+fn static_lookups(
+    shape: &crate::shape::Shape,
+    k: u32,
+    vk: &midnight_proofs::plonk::VerifyingKey<SymF, SymCS>,
+    mock: &MockProver<Fq>,
+) -> Value {
+    use crate::shape::Atom;
+    use midnight_proofs::plonk::{Circuit, ConstraintSystem};
+    let n = 1usize << k;
+    let urows = n - (vk.cs().blinding_factors() + 1);
+    let mut cs0 = ConstraintSystem::<Fq>::default();
+    let cfg = ShapeCircuit::<Fq>::configure_with_params(&mut cs0, shape.clone());
+    let fixed: Vec<Vec<SymF>> = vk.fixed_commitments().iter().map(|c| handle_terms(c.0)).collect();
+    let wrap = |row: usize, rot: i32| ((row as i64 + rot as i64).rem_euclid(n as i64)) as usize;
+    let adv = |col: usize, row: usize| var(&format!("A{col}_{row}"));
+    let mut out = vec![];
+    for (li, lk) in shape.slookups.iter().enumerate() {
+        let lidx = shape.lookups.len() + li;
+        let arg = &vk.cs().lookups()[lidx];
+        let sel_index = cfg.lsels[li].map(|s| s.index());
+        let t = &shape.tables[lk.table];
+        let mut impl_rows = vec![];
+        let mut spec_rows = vec![];
+        for row in 0..urows {
+            let mut irow = vec![];
+            let mut srow = vec![];
+            for (j, e) in arg.input_expressions().iter().enumerate() {
+                let v: SymF = e.evaluate(
+                    &|c| c,
+                    &|_| panic!("selector left in a vk lookup expression"),
+                    &|q| fixed[q.column_index()][wrap(row, q.rotation().0)],
+                    &|q| adv(q.column_index(), wrap(row, q.rotation().0)),
+                    &|q| var(&format!("I{}_{}", q.column_index(), wrap(row, q.rotation().0))),
+                    &|c| var(&format!("CH{}", c.index())),
+                    &|a| -a,
+                    &|a, b| a + b,
+                    &|a, b| a * b,
+                    &|a, f| a * f,
+                );
+                irow.push(id(v));
+                // declared
+                let mut inp = SymF::ZERO;
+                for p in lk.inputs[j].iter() {
+                    let mut pv = SymF::ONE;
+                    for a in p.iter() {
+                        pv = pv
+                            * match a {
+                                Atom::A(c, r) => adv(*c, wrap(row, *r)),
+                                Atom::K(kv) => SymF::from(*kv),
+                                Atom::C(i) => var(&format!("CH{i}")),
+                                Atom::I(c, r) => var(&format!("I{c}_{}", wrap(row, *r))),
+                                Atom::F(..) => panic!("static lookup input: fixed atom"),
+                            };
+                    }
+                    inp = inp + pv;
+                }
+                let q = sel_index.map(|si| if mock.selectors()[si][row] { SymF::ONE } else { SymF::ZERO });
+                let d = SymF::from(t.rows[0][j]);
+                let sv = match (lk.sel.as_str(), q) {
+                    ("mux", Some(q)) => q * inp + (SymF::ONE - q) * d,
+                    ("mul", Some(q)) => q * inp,
+                    _ => inp,
+                };
+                srow.push(id(sv));
+            }
+            impl_rows.push(irow);
+            spec_rows.push(srow);
+        }
+        let tcols: Vec<usize> = cfg.tcols[lk.table].iter().map(|c| c.inner().index()).collect();
+        out.push(json!({"lookup_index": lidx, "name": arg.name(), "table": lk.table, "table_fixed_cols": tcols, "sel": lk.sel,
+                        "sel_index": sel_index, "enabled_rows": shape.slookup_rows(li), "table_rows": t.rows,
+                        "impl": impl_rows, "spec": spec_rows}));
+    }
+    json!(out)
 }
